@@ -352,6 +352,13 @@ def install_string_models(reg):
     reg.ext_models["datetime.datetime.fromisoformat"] = m_fromisoformat
 
 
+# sorts of the listing layer (functions over them are declared in Part B / C below)
+JsonS, BytesS, RespS, ReqS = ext_sort("Json"), ext_sort("Bytes"), ext_sort("Response"), ext_sort("Request")
+FMS = ext_sort("FileMeta")
+SQF, SQJ = z3.SeqSort(FMS), z3.SeqSort(JsonS)
+SEQ_ELEM_KIND = {"Json": "Json", "FileMeta": "FileMeta"}
+
+
 # ================================================================ executor ==
 def subst_v(v: V, i, j):
     """v with the Int constant i replaced by the term j."""
@@ -364,6 +371,32 @@ def subst_v(v: V, i, j):
     if isinstance(v, VExt):
         return VExt(v.sort, z3.substitute(v.t, (i, j)))
     raise ops.Unsupported(f"element kind {v.kind} in symbolic comprehension")
+
+
+class CLoop(LoopSpec):
+    """Loop spec with a ghost iteration counter (while loops: lc.i) and lists abstracted to sequences."""
+
+    def __init__(self, inv=None, label="", seq_lists=None):
+        super().__init__(inv=inv, label=label)
+        self.seq_lists = seq_lists or {}
+
+
+def ghost_y(st):
+    y = st.ghost.get("Y")
+    return y if y is not None else z3.Empty(SQF)
+
+
+def seq_of(st, v, sort):
+    """Sequence term of a list value: a concrete heap list or a 'seqlist'."""
+    o = st.obj(v.ref)
+    if o.kind == "seqlist":
+        return o.data
+    if o.kind == "list" and o.data is not None and all(isinstance(x, VExt) for x in o.data):
+        if not o.data:
+            return z3.Empty(z3.SeqSort(sort))
+        units = [z3.Unit(x.t) for x in o.data]
+        return units[0] if len(units) == 1 else z3.Concat(*units)
+    return None
 
 
 class C18Executor(Executor):
@@ -398,6 +431,12 @@ class C18Executor(Executor):
         return super().str_method(st, s, name, args, kwargs, node)
 
     def contains(self, st, container, item, node):
+        if isinstance(container, VExt) and container.sort == "Json" and isinstance(item, VStr):
+            # `key in obj` on a parsed JSON object (callers test isinstance(obj, dict) first; TypeError otherwise)
+            st2 = self.fork_raise(st, z3.Not(J_ISDICT(container.t)), "TypeError")
+            if st2 is None:
+                return []
+            return [(st2, VBool(J_HAS(container.t, item.t)))]
         if isinstance(container, VStr) and isinstance(item, VStr) and item.const() and len(item.const()) == 1:
             ch = item.const()
             terms = []
@@ -437,6 +476,13 @@ class C18Executor(Executor):
     def __init__(self, *a, unshaped_keys=(), **kw):
         super().__init__(*a, **kw)
         self.unshaped_keys = tuple(unshaped_keys)
+
+    def apply_contract(self, st, c, args, kwargs, node):
+        self.applying = getattr(self, "applying", 0) + 1
+        try:
+            return super().apply_contract(st, c, args, kwargs, node)
+        finally:
+            self.applying -= 1
 
     def call(self, st, f, args, kwargs, node):
         if isinstance(f, VExt) and f.sort == "Transport":
@@ -481,6 +527,103 @@ class C18Executor(Executor):
             if names == ["str"]:
                 return [(st, VBool(J_ISSTR(v.t)))]
         return super().b_isinstance(st, args, kwargs, node)
+
+    # -- generators: ghost sequence Y of everything yielded so far -------------
+    def on_yield(self, st, v, node):
+        if isinstance(v, VExt) and v.sort == "FileMeta":
+            st.ghost["Y"] = z3.Concat(ghost_y(st), z3.Unit(v.t))
+        else:
+            st.ghost["Y_unknown"] = True
+
+    def e_YieldFrom(self, n, st):
+        out = []
+        for (s, v) in self.ev(n.value, st):
+            if isinstance(v, VSeq) and isinstance(v.tag, tuple) and v.tag[0] == "seq":
+                s.ghost["Y"] = z3.Concat(ghost_y(s), v.tag[1])
+                out.append((s, NONE))
+            else:
+                out.extend(super().e_YieldFrom(n, s))
+        return out
+
+    # -- lists built by append inside symbolic loops: heap kind 'seqlist' (data = z3 Seq term) --
+    def havoc_loop_state(self, st, body, spec, extra_names=()):
+        keep = {}
+        for name, sort in getattr(spec, "seq_lists", {}).items():
+            v = st.lookup(name)
+            if isinstance(v, VRef):
+                keep[v.ref] = (name, sort)
+        # the client object: callee contracts' frames only touch `_access_token` (token_frame); a loop body without
+        # direct attribute stores therefore leaves every other field as it is
+        clients = {}
+        if not any(isinstance(n, _ast.Attribute) and isinstance(n.ctx, _ast.Store) for b in body for n in _ast.walk(b)):
+            for ref in self.mutated_refs(body, st):
+                o = st.heap.get(ref)
+                if o is not None and o.kind == "obj" and o.cls == "SharePointRestClient" and o.data is not None:
+                    clients[ref] = o
+        super().havoc_loop_state(st, body, spec, extra_names)
+        for ref, o in clients.items():
+            st.heap[ref] = HeapObj("obj", dict(o.data, _access_token=VUnk("token-maybe-fetched")), o.cls, o.fresh)
+        for ref, (name, sort) in keep.items():
+            st.heap[ref] = HeapObj("seqlist", z3.Const(fresh_name(name), z3.SeqSort(sort)), SEQ_ELEM_KIND[sort.name()], True)
+        if self._has_yield(body):
+            st.ghost["Y"] = z3.Const(fresh_name("Y"), SQF)
+
+    def list_method(self, st, obj, name, args, kwargs, node):
+        o = st.obj(obj.ref)
+        if o.kind == "seqlist":
+            if name == "append" and isinstance(args[0], VExt) and args[0].sort == o.cls:
+                st.wobj(obj.ref).data = z3.Concat(o.data, z3.Unit(args[0].t))
+                return [(st, NONE)]
+            self.unsupported(node, f"list.{name} on a list built in a symbolic loop")
+        return super().list_method(st, obj, name, args, kwargs, node)
+
+    def call_method(self, st, obj, name, args, kwargs, node):
+        if isinstance(obj, VRef) and st.obj(obj.ref).kind == "seqlist":
+            return self.list_method(st, obj, name, args, kwargs, node)
+        return super().call_method(st, obj, name, args, kwargs, node)
+
+    def seq_view(self, st, it):
+        if isinstance(it, VRef) and st.obj(it.ref).kind == "seqlist":
+            o = st.obj(it.ref)
+            return z3.Length(o.data), (lambda i, o=o: VExt(o.cls, o.data[i]))
+        return super().seq_view(st, it)
+
+    # -- while loops with a ghost iteration counter (CLoop) ----------------------
+    def s_While(self, s, st):
+        spec = self.loop_spec(s)
+        if not isinstance(spec, CLoop):
+            return super().s_While(s, st)
+        label = spec.label or f"L{s.lineno}"
+        entry = st.fork()
+        outs = []
+        self.add_vc("inv-init", label, st.pc, spec.inv(LoopCtx(self, st, z3.IntVal(0), entry)), loc=self.loc(s))
+        body_st = st.fork()
+        self.havoc_loop_state(body_st, s.body, spec)
+        k = z3.Int(fresh_name("k"))
+        body_st.assume(k >= 0)
+        body_st.ghost["k"] = k
+        body_st.assume(self._b(spec.inv(LoopCtx(self, body_st, k, entry))))
+        after0 = body_st.fork()
+        for (s2, g) in self.ev(s.test, body_st):
+            for (s3, b) in self.fork_truth(s2, g):
+                if not b:
+                    continue
+                for o in self.exec_block(s.body, s3):
+                    if o.kind in ("fall", "continue"):
+                        self.add_vc("inv-preserve", label, o.st.pc, spec.inv(LoopCtx(self, o.st, k + 1, entry)), loc=self.loc(s))
+                    elif o.kind == "break":
+                        outs.append(Outcome("fall", o.st))
+                    else:
+                        outs.append(o)
+        for (s2, g) in self.ev(s.test, after0):
+            for (s3, b) in self.fork_truth(s2, g):
+                if b:
+                    continue
+                if s.orelse:
+                    outs.extend(self.exec_block(s.orelse, s3))
+                else:
+                    outs.append(Outcome("fall", s3))
+        return outs
 
     # -- comprehensions over symbolic sequences ------------------------------
     def e_GeneratorExp(self, n, st):
@@ -665,6 +808,8 @@ JSON_OF = z3.Function("server_json", S, JsonS)     # T-DET: what a healthy serve
 # keys whose value, when present, is ASSUMED to be a string (GRAPH-SHAPE); "value" is ASSUMED to be an array
 SHAPE_STR_KEYS = frozenset({"name", "id", "@odata.nextLink", "access_token"})
 SHAPE_LIST_KEYS = frozenset({"value"})
+# members that are only copied into the metadata record: modelled as one opaque value (no case split)
+OPAQUE_KEYS = frozenset({"webUrl", "@microsoft.graph.downloadUrl", "size", "mimeType"})
 
 
 def json_seq(arr):
@@ -682,6 +827,8 @@ def m_json_get(ex, st, obj, args, kwargs, node):
     st = ex.fork_raise(st, z3.Not(J_ISDICT(j)), "AttributeError")
     if st is None:
         return []
+    if key in OPAQUE_KEYS:
+        return [(st, VUnk(f"json member {key}"))]
     has = J_HAS(j, sv(key))
     mem = J_GET(j, sv(key))
     out = []
@@ -876,7 +1023,15 @@ def caches_unchanged(c):
 def at_call_site(c):
     """Contract clauses are evaluated both when the body is verified (c.exc / c.result set) and when a caller
     uses the contract (neither set): there they describe what the caller may assume."""
-    return c.exc is None and c.result is None
+    return getattr(c.ex, "applying", 0) > 0
+
+
+def body_only(fn):
+    """A postcondition that inspects the concrete result of the verified body; callers get the abstract value
+    built by the contract's result_maker instead (which is defined to satisfy it)."""
+    def w(c):
+        return z3.BoolVal(True) if at_call_site(c) else fn(c)
+    return w
 
 
 def send_raise_when(c):
@@ -1034,7 +1189,7 @@ def part_b(reg):
         params=[("self", p_client()), ("url", p_str())],
         ensures=[("responses-closed", closed), ("token-present-afterwards", json_token_rule),
                  ("site-id-untouched", lambda c: same_value(self_field(c, "_site_id"), self_field(c, "_site_id", c.entry))),
-                 ("result-is-the-parsed-body", lambda c: z3.BoolVal(isinstance(c.result, VExt) and c.result.sort == "Json"))],
+                 ("result-is-the-parsed-body", body_only(lambda c: z3.BoolVal(isinstance(c.result, VExt) and c.result.sort == "Json")))],
         raises=family_raises(json_raise_token_rule),
         modifies=("self",), frame=token_frame,
         result_maker=get_json_result,
@@ -1091,10 +1246,587 @@ def token_after_success_if_needed(ex, st, ctx):
         token_after_success(ex, st, ctx)
 
 
+# ================================================================== Part C ==
+# ---- the abstract document library (spec side, written from the statement) -----
+# A healthy server answers GET u with the JSON object JSON_OF(u) (T-DET).  A listing is a chain of pages
+# u, next(u), next(next(u)), ... ending where there is no (or an empty) "@odata.nextLink" (T-FIN: finite).
+NL = "@odata.nextLink"
+META_OF = z3.Function("file_meta", JsonS, S, FMS)      # the metadata record of a drive item under a parent path
+CtxS = ext_sort("WalkCtx")                             # (site id, drive id or default drive)
+CTX0 = z3.Function("ctx_default_drive", S, CtxS)
+CTXD = z3.Function("ctx_drive", S, S, CtxS)
+CU = z3.Function("children_url", CtxS, S, S)            # children listing URL of the folder with this id
+CUROOT = z3.Function("root_children_url", CtxS, S)
+NPAGES = z3.Function("n_pages", S, I)
+FltS = ext_sort("FileFilter")
+MATCHES = z3.Function("filter_matches", FltS, FMS, B)   # FileFilter.matches (its own contract: Part A)
+TARGET_N = z3.Function("filter_target_folders_len", FltS, I)
+TARGET_AT = z3.Function("filter_target_folder", FltS, I, S)
+FP_FOUND = z3.Function("folder_lookup_found", CtxS, S, B)
+FP_ITEM = z3.Function("folder_lookup_item", CtxS, S, JsonS)
+
+
+def _macro(name, sorts, build):
+    """Non-recursive definition (z3 define-fun): keeps the bodies of the recursive spec functions free of nested
+    case splits (z3's recfun engine loops when an if-condition inside a recursive body contains a recursive call)."""
+    f = z3.RecFunction(name, *sorts)
+    xs = [z3.Const(f"{name}_x{i}", srt) for i, srt in enumerate(sorts[:-1])]
+    z3.RecAddDefinition(f, xs, build(*xs))
+    return f
+
+
+def _n_items(u):
+    P = JSON_OF(u)
+    return z3.If(J_HAS(P, sv("value")), J_LEN(J_GET(P, sv("value"))), 0)
+
+
+def _next_url(u):
+    P = JSON_OF(u)
+    return z3.If(J_HAS(P, sv(NL)), J_STR(J_GET(P, sv(NL))), sv(""))
+
+
+n_items = _macro("n_items", [S, I], _n_items)
+item_at = _macro("item_at", [S, I, JsonS], lambda u, i: J_AT(J_GET(JSON_OF(u), sv("value")), i))
+next_url = _macro("next_url", [S, S], _next_url)
+# Statement: files are the drive items with a file facet that are not folders.
+is_file = _macro("is_file", [JsonS, B], lambda it: z3.And(J_ISDICT(it), z3.Not(J_HAS(it, sv("folder"))), J_HAS(it, sv("file"))))
+is_folder = _macro("is_folder", [JsonS, B], lambda it: z3.And(J_ISDICT(it), J_HAS(it, sv("folder"))))
+f_name = _macro("folder_name", [JsonS, S], lambda it: z3.If(J_HAS(it, sv("name")), J_STR(J_GET(it, sv("name"))), sv("")))
+f_id = _macro("folder_id", [JsonS, S], lambda it: J_STR(J_GET(it, sv("id"))))
+f_has_id = _macro("folder_has_id", [JsonS, B], lambda it: z3.And(J_HAS(it, sv("id")), z3.Length(J_STR(J_GET(it, sv("id")))) > 0))
+
+
+# Statement: parent path = the ancestor folder names joined by '/'.
+join_path = _macro("join_path", [S, S, S], lambda pp, name: z3.If(z3.Length(pp) > 0, z3.Concat(pp, sv("/"), name), name))
+
+
+_u, _pp, _k = z3.String("u_def"), z3.String("pp_def"), z3.Int("k_def")
+_ctx, _flt = z3.Const("ctx_def", CtxS), z3.Const("flt_def", FltS)
+_w = z3.Const("w_def", SQF)
+URLK = z3.RecFunction("page_url", S, I, S)                      # k-th page URL of the chain starting at u
+z3.RecAddDefinition(URLK, [_u, _k], z3.If(_k <= 0, _u, next_url(URLK(_u, _k - 1))))
+PF = z3.RecFunction("page_files", S, S, I, SQF)                 # files among the first k items of page u
+z3.RecAddDefinition(PF, [_u, _pp, _k], z3.If(_k <= 0, z3.Empty(SQF), z3.Concat(
+    PF(_u, _pp, _k - 1), z3.If(is_file(item_at(_u, _k - 1)), z3.Unit(META_OF(item_at(_u, _k - 1), _pp)), z3.Empty(SQF)))))
+FILES = z3.RecFunction("chain_files", S, S, I, SQF)             # files of the first k pages
+z3.RecAddDefinition(FILES, [_u, _pp, _k], z3.If(_k <= 0, z3.Empty(SQF), z3.Concat(
+    FILES(_u, _pp, _k - 1), PF(URLK(_u, _k - 1), _pp, n_items(URLK(_u, _k - 1))))))
+PFOLD = z3.RecFunction("page_folders", S, I, SQJ)
+z3.RecAddDefinition(PFOLD, [_u, _k], z3.If(_k <= 0, z3.Empty(SQJ), z3.Concat(
+    PFOLD(_u, _k - 1), z3.If(is_folder(item_at(_u, _k - 1)), z3.Unit(item_at(_u, _k - 1)), z3.Empty(SQJ)))))
+FOLD = z3.RecFunction("chain_folders", S, I, SQJ)
+z3.RecAddDefinition(FOLD, [_u, _k], z3.If(_k <= 0, z3.Empty(SQJ), z3.Concat(
+    FOLD(_u, _k - 1), PFOLD(URLK(_u, _k - 1), n_items(URLK(_u, _k - 1))))))
+
+
+# All files / folders of a listing.  Opaque names for FILES(u, pp, NPAGES(u)) / FOLD(u, NPAGES(u)): the defining
+# equations are hypotheses only where the page loops are verified (`def_files_all`, `def_folders_all`), so that
+# the VCs of the consumers (walk, filters) do not contain recursive terms with a symbolic depth, on which z3's
+# recfun unfolding does not terminate within the budget (measured: unknown at 5 s, proved in 0.5 s when opaque).
+files_all = z3.Function("all_files", S, S, SQF)
+folders_all = z3.Function("all_folders", S, SQJ)
+
+
+def def_files_all(u, pp):
+    return files_all(u, pp) == FILES(u, pp, NPAGES(u))
+
+
+def def_folders_all(u):
+    return folders_all(u) == FOLD(u, NPAGES(u))
+
+
+WALK = z3.RecFunction("walk", CtxS, S, S, SQF)                  # preorder: files of the folder, then each subfolder
+WF = z3.RecFunction("walk_subfolders", CtxS, S, S, I, SQF)      # ... the first k subfolders of the listing at u
+z3.RecAddDefinition(WALK, [_ctx, _u, _pp], z3.Concat(files_all(_u, _pp), WF(_ctx, _u, _pp, z3.Length(folders_all(_u)))))
+_f = folders_all(_u)[_k - 1]
+z3.RecAddDefinition(WF, [_ctx, _u, _pp, _k], z3.If(_k <= 0, z3.Empty(SQF), z3.Concat(
+    WF(_ctx, _u, _pp, _k - 1),
+    z3.If(f_has_id(_f), WALK(_ctx, CU(_ctx, f_id(_f)), join_path(_pp, f_name(_f))), z3.Empty(SQF)))))
+FILTER = z3.RecFunction("filter_prefix", FltS, SQF, I, SQF)     # matching ones among the first k
+z3.RecAddDefinition(FILTER, [_flt, _w, _k], z3.If(_k <= 0, z3.Empty(SQF), z3.Concat(
+    FILTER(_flt, _w, _k - 1), z3.If(MATCHES(_flt, _w[_k - 1]), z3.Unit(_w[_k - 1]), z3.Empty(SQF)))))
+
+
+# opaque names again (see files_all): the matching files of a whole sequence, and the spec of _walk_and_filter
+filtered = z3.Function("filtered", FltS, SQF, SQF)
+WAF = z3.Function("walk_and_filter", CtxS, FltS, S, SQF)
+
+
+def def_filtered(flt, w):
+    return filtered(flt, w) == FILTER(flt, w, z3.Length(w))
+
+
+def def_waf(ctx, flt, path):
+    return WAF(ctx, flt, path) == waf_spec(ctx, flt, path)
+
+
+def waf_spec(ctx, flt, path):
+    """_walk_and_filter: whole drive for an empty path, else the subtree of the folder found at that path
+    (nothing if there is no such folder), parent paths prefixed with the folder path."""
+    sub = z3.If(FP_FOUND(ctx, path), filtered(flt, WALK(ctx, CU(ctx, f_id(FP_ITEM(ctx, path))), path)), z3.Empty(SQF))
+    return z3.If(z3.Length(path) > 0, sub, filtered(flt, WALK(ctx, CUROOT(ctx), sv(""))))
+
+
+LFF = z3.RecFunction("filtered_over_targets", CtxS, FltS, I, SQF)
+z3.RecAddDefinition(LFF, [_ctx, _flt, _k], z3.If(_k <= 0, z3.Empty(SQF), z3.Concat(
+    LFF(_ctx, _flt, _k - 1), WAF(_ctx, _flt, TARGET_AT(_flt, _k - 1)))))
+
+
+def chain_finite(u):
+    """T-FIN (ASSUMED): the page chain starting at u ends after NPAGES(u) pages."""
+    j = z3.Int(fresh_name("j!fin"))
+    return z3.And(NPAGES(u) >= 0, URLK(u, NPAGES(u)) == sv(""),
+                  z3.ForAll([j], z3.Implies(z3.And(j >= 0, j < NPAGES(u)), URLK(u, j) != sv("")), patterns=[URLK(u, j)]))
+
+
+TAKE = z3.RecFunction("take", SQF, I, SQF)                      # the first k elements, built by appending one at a time
+z3.RecAddDefinition(TAKE, [_w, _k], z3.If(_k <= 0, z3.Empty(SQF), z3.Concat(TAKE(_w, _k - 1), z3.Unit(_w[_k - 1]))))
+
+
+def take_all():
+    """Lemma (sequence theory; proved in lemmas() by induction on n: take(w, n) == w[:n], chain take-all.*):
+    take(w, |w|) == w for every sequence of file records."""
+    w = z3.Const(fresh_name("w!ta"), SQF)
+    return z3.ForAll([w], TAKE(w, z3.Length(w)) == w, patterns=[TAKE(w, z3.Length(w))])
+
+
+def all_folders_nth(t):
+    n = z3.Int(fresh_name("n!fd"))
+    return z3.ForAll([n], z3.Implies(z3.And(n >= 0, n < z3.Length(t)), is_folder(t[n])), patterns=[t[n]])
+
+
+def ctx_of(site, drive):
+    return CTX0(site.t) if isinstance(drive, VNoneT) else CTXD(site.t, drive.t)
+
+
+def cur_url(v):
+    return sv("") if isinstance(v, VNoneT) else v.t
+
+
+def seq_value(term, sort_name):
+    return VSeq(z3.Length(term), lambda i: VExt(sort_name, term[i]), sort_name, tag=("seq", term))
+
+
+def with_default(maker, default):
+    m = Maker(maker.fn, desc=maker.desc, default=lambda ex, st: default)
+    return m
+
+
+P_PP = with_default(p_str(), VStr(""))
+P_DRIVE = with_default(p_opt(p_str()), NONE)
+
+
+def p_json(name_hint="item"):
+    return Maker(lambda ex, st, name: VExt("Json", z3.Const(name, JsonS)), desc="parsed JSON value")
+
+
+def p_filter_abs():
+    return Maker(lambda ex, st, name: VExt("FileFilter", z3.Const(name, FltS)), desc="FileFilter (abstract: MATCHES, target folders)")
+
+
+def m_filter_matches(ex, st, obj, args, kwargs, node):
+    m = args[0]
+    if isinstance(m, VExt) and m.sort == "FileMeta":
+        return [(st, VBool(MATCHES(obj.t, m.t)))]
+    return ex.havoc_call(st, "FileFilter.matches", args, node)
+
+
+def m_filter_targets(ex, st, obj, args, kwargs, node):
+    st.assume(TARGET_N(obj.t) >= 0)
+    return [(st, VSeq(TARGET_N(obj.t), lambda i: VStr(TARGET_AT(obj.t, i)), "str"))]
+
+
+J_NKEYS = z3.Function("json_n_keys", JsonS, I)
+J_KEY = z3.Function("json_key", JsonS, I, S)
+
+
+def m_json_items(ex, st, obj, args, kwargs, node):
+    j = obj.t
+    st = ex.fork_raise(st, z3.Not(J_ISDICT(j)), "AttributeError")
+    if st is None:
+        return []
+    st.assume(J_NKEYS(j) >= 0)
+    return [(st, VSeq(J_NKEYS(j), lambda i: VTuple([VStr(J_KEY(j, i)), VExt("Json", J_GET(j, J_KEY(j, i)))]), "tuple"))]
+
+
+def install_listing_models(reg):
+    reg.method_models[("FileFilter", "matches")] = m_filter_matches
+    reg.method_models[("FileFilter", "get_target_folders")] = m_filter_targets
+    reg.method_models[("Json", "items")] = m_json_items
+
+
+def listing_raises(c_extra=None):
+    """Fault containment: whatever fails, only the client's own family escapes, every response obtained is closed
+    and the site id cache is as before (a cached token is kept)."""
+    def w(c):
+        if at_call_site(c):
+            ref = c.args["self"].ref
+            old = c.entry.obj(ref).data["_access_token"]
+            if isinstance(old, VStr):
+                c.st.wobj(ref).data["_access_token"] = old
+            return z3.BoolVal(True)
+        return z3.And(closed(c), same_value(self_field(c, "_site_id"), self_field(c, "_site_id", c.entry)))
+    return [Raises(k, when=w) for k in FAMILY]
+
+
+def y_is(c, term):
+    """Everything yielded by this activation, in order, is exactly `term`."""
+    if at_call_site(c):
+        return z3.BoolVal(True)       # callers get the yielded sequence as the call's value (gen_result)
+    if c.st.ghost.get("Y_unknown"):
+        return z3.BoolVal(False)
+    return ghost_y(c.st) == term
+
+
+def gen_result(term_fn):
+    """Call-site view of a generator under contract: the sequence it yields (PY-GEN: eager)."""
+    def mk(ex, st, ctx):
+        token_after_success(ex, st, ctx)
+        return seq_value(term_fn(ctx), "FileMeta")
+    return mk
+
+
+def part_c(reg):
+    out = []
+    CL = p_client()
+
+    # -- _build_children_url: URL construction is opaque (TRUSTED: exercised by the replayer's fake server) -------
+    def curl(c):
+        ctx = ctx_of(c.args["site_id"], c.args["drive_id"])
+        it = c.args["item_id"]
+        return VStr(CUROOT(ctx)) if isinstance(it, VNoneT) else VStr(CU(ctx, it.t))
+    out.append(FnContract(
+        target=f"{CLIENT}::SharePointRestClient._build_children_url",
+        params=[("self", CL), ("site_id", p_str()), ("item_id", p_opt(p_str())), ("drive_id", P_DRIVE)],
+        returns=curl, assumed=True,
+        note="ASSUMED abstraction: the children URL is a function of (site, drive, folder id); its Graph format is not proved",
+    ))
+
+    # -- _parse_file_item ---------------------------------------------------------------------------------------
+    def pfi_fields(c):
+        r = c.result
+        if not isinstance(r, VRef) or c.st.obj(r.ref).kind != "obj" or c.st.obj(r.ref).cls != "SharePointFileMetadata":
+            return z3.BoolVal(False)
+        d = c.st.obj(r.ref).data
+        it, pp = c.args["item"].t, c.args["parent_path"].t
+
+        def opt_str(v, key):
+            if isinstance(v, VNoneT):
+                return z3.Not(J_HAS(it, sv(key)))
+            if isinstance(v, VStr):
+                return z3.And(J_HAS(it, sv(key)), v.t == J_STR(J_GET(it, sv(key))))
+            if isinstance(v, VExt) and v.sort == "Json":
+                return z3.And(J_HAS(it, sv(key)), v.t == J_GET(it, sv(key)))
+            return z3.BoolVal(False)
+        ppv = d["parent_path"]
+        pp_ok = (z3.Length(pp) == 0) if isinstance(ppv, VNoneT) else (z3.And(z3.Length(pp) > 0, ppv.t == pp) if isinstance(ppv, VStr) else z3.BoolVal(False))
+        name_ok = d["name"].t == f_name(it) if isinstance(d["name"], VStr) else z3.BoolVal(False)
+        return z3.And(pp_ok, name_ok, opt_str(d["created"], "createdDateTime"), opt_str(d["last_modified"], "lastModifiedDateTime"))
+
+    out.append(FnContract(
+        target=f"{CLIENT}::SharePointRestClient._parse_file_item",
+        params=[("self", p_client(p_unk(), p_unk())), ("item", p_json()), ("parent_path", P_PP)],
+        requires=lambda c: J_ISDICT(c.args["item"].t),
+        ensures=[("record-carries-item-name-dates-and-the-given-parent-path", body_only(pfi_fields))],
+        raises=[],
+        result_maker=lambda ex, st, ctx: VExt("FileMeta", META_OF(ctx.args["item"].t, ctx.args["parent_path"].t)),
+        note="the record of an item: its name, timestamps, and parent_path = the path it was listed under (None at the root)",
+    ))
+
+    # -- _list_items_paginated ------------------------------------------------------------------------------------
+    def lip_outer(lc):
+        url, pp = lc.entry.lookup("url").t, lc.entry.lookup("parent_path").t
+        k = lc.i
+        j = z3.Int(fresh_name("j!inv"))
+        return z3.And(cur_url(lc["current_url"]) == URLK(url, k),
+                      ghost_y(lc.st) == FILES(url, pp, k),
+                      z3.ForAll([j], z3.Implies(z3.And(j >= 0, j < k), URLK(url, j) != sv("")), patterns=[URLK(url, j)]))
+
+    def lip_inner(lc):
+        url, pp = lc.entry.lookup("url").t, lc.entry.lookup("parent_path").t
+        k = lc.st.ghost["k"]
+        return ghost_y(lc.st) == z3.Concat(FILES(url, pp, k), PF(lc["current_url"].t, pp, lc.i))
+
+    out.append(FnContract(
+        target=f"{CLIENT}::SharePointRestClient._list_items_paginated",
+        params=[("self", CL), ("url", p_str()), ("parent_path", P_PP)],
+        hyps=lambda c: z3.BoolVal(True) if at_call_site(c) else z3.And(
+            chain_finite(c.args["url"].t), def_files_all(c.args["url"].t, c.args["parent_path"].t)),
+        generator=True,
+        ensures=[("yields-exactly-the-files-of-all-pages-in-order", lambda c: y_is(c, files_all(c.args["url"].t, c.args["parent_path"].t))),
+                 ("responses-closed", closed)],
+        raises=listing_raises(),
+        loops={0: CLoop(inv=lip_outer, label="pages"), 1: LoopSpec(inv=lip_inner, label="items")},
+        modifies=("self",), frame=token_frame,
+        result_maker=gen_result(lambda ctx: files_all(ctx.args["url"].t, ctx.args["parent_path"].t)),
+        note="yielded = files of pages 0..k in order (loop invariant over the abstract page chain)",
+    ))
+
+    # -- _get_folders_from_url ------------------------------------------------------------------------------------
+    def all_folders(t):
+        """Every member is a folder item (membership form: preserved by append at once in z3)."""
+        e = z3.Const(fresh_name("e!fd"), JsonS)
+        return z3.ForAll([e], z3.Implies(z3.Contains(t, z3.Unit(e)), is_folder(e)))
+
+    AF = all_folders
+
+    def gf_outer(lc):
+        url = lc.entry.lookup("url").t
+        k = lc.i
+        j = z3.Int(fresh_name("j!inv"))
+        fs = seq_of(lc.st, lc["folders"], JsonS)
+        if fs is None:
+            return z3.BoolVal(False)
+        return z3.And(cur_url(lc["current_url"]) == URLK(url, k), fs == FOLD(url, k), AF(fs),
+                      z3.ForAll([j], z3.Implies(z3.And(j >= 0, j < k), URLK(url, j) != sv("")), patterns=[URLK(url, j)]))
+
+    def gf_inner(lc):
+        url = lc.entry.lookup("url").t
+        k = lc.st.ghost["k"]
+        fs = seq_of(lc.st, lc["folders"], JsonS)
+        if fs is None:
+            return z3.BoolVal(False)
+        return z3.And(fs == z3.Concat(FOLD(url, k), PFOLD(lc["current_url"].t, lc.i)), AF(fs))
+
+    def gf_post(c):
+        if not isinstance(c.result, VRef):
+            return z3.BoolVal(False)
+        fs = seq_of(c.st, c.result, JsonS)
+        if fs is None:
+            return z3.BoolVal(False)
+        return z3.And(fs == folders_all(c.args["url"].t), all_folders(fs))
+
+    def gf_result(ex, st, ctx):
+        token_after_success(ex, st, ctx)
+        t = folders_all(ctx.args["url"].t)
+        st.assume(all_folders(t))
+        st.assume(all_folders_nth(t))       # = all_folders(t) by the proved lemma chain `members-by-index` (lemmas())
+        return seq_value(t, "Json")
+
+    out.append(FnContract(
+        target=f"{CLIENT}::SharePointRestClient._get_folders_from_url",
+        params=[("self", CL), ("url", p_str())],
+        hyps=lambda c: z3.BoolVal(True) if at_call_site(c) else z3.And(
+            chain_finite(c.args["url"].t), def_folders_all(c.args["url"].t)),
+        ensures=[("returns-exactly-the-folders-of-all-pages-in-order", body_only(gf_post)), ("responses-closed", closed)],
+        raises=listing_raises(),
+        loops={0: CLoop(inv=gf_outer, label="pages", seq_lists={"folders": JsonS}),
+               1: CLoop(inv=gf_inner, label="items", seq_lists={"folders": JsonS})},
+        modifies=("self",), frame=token_frame,
+        result_maker=gf_result,
+    ))
+
+    # -- _walk_drive_items: modular recursion ----------------------------------------------------------------------
+    def walk_url(c_args):
+        ctx = ctx_of(c_args["site_id"], c_args["drive_id"])
+        it = c_args["item_id"]
+        return ctx, (CUROOT(ctx) if isinstance(it, VNoneT) else CU(ctx, it.t))
+
+    def walk_term(args):
+        ctx, u = walk_url(args)
+        return WALK(ctx, u, args["parent_path"].t)
+
+    def entry_args(lc):
+        return {k: lc.entry.lookup(k) for k in ("site_id", "item_id", "drive_id", "parent_path")}
+
+    def wd_first(lc):
+        a = entry_args(lc)
+        _ctx_, u = walk_url(a)
+        fa = files_all(u, a["parent_path"].t)
+        return ghost_y(lc.st) == TAKE(fa, lc.i)
+
+    def wd_second(lc):
+        a = entry_args(lc)
+        ctx, u = walk_url(a)
+        pp = a["parent_path"].t
+        return ghost_y(lc.st) == z3.Concat(files_all(u, pp), WF(ctx, u, pp, lc.i))
+
+    def wd_hyps(c):
+        if at_call_site(c):
+            return z3.BoolVal(True)
+        _ctx_, u = walk_url(c.args)
+        return take_all()
+
+    out.append(FnContract(
+        target=f"{CLIENT}::SharePointRestClient._walk_drive_items",
+        params=[("self", CL), ("site_id", p_str()), ("item_id", p_opt(p_str())), ("drive_id", P_DRIVE), ("parent_path", P_PP)],
+        hyps=wd_hyps,
+        generator=True,
+        ensures=[("yields-the-preorder-walk:-each-file-once-with-parent-path-=-joined-ancestor-names",
+                  lambda c: y_is(c, walk_term(c.args))), ("responses-closed", closed)],
+        raises=listing_raises(),
+        loops={0: LoopSpec(inv=wd_first, label="files"), 1: LoopSpec(inv=wd_second, label="subfolders")},
+        modifies=("self",), frame=token_frame,
+        result_maker=gen_result(lambda ctx: walk_term(ctx.args)),
+        note="PY-REC: the recursive call is used through this same contract (partial correctness; TREE-FINITE)",
+    ))
+
+    # -- _get_folder_by_path (abstract folder lookup) ---------------------------------------------------------------
+    def gfp_returns(c):
+        ctx = ctx_of(c.args["site_id"], c.args["drive_id"])
+        p = c.args["folder_path"].t
+        return [(z3.Not(FP_FOUND(ctx, p)), NONE), (FP_FOUND(ctx, p), VExt("Json", FP_ITEM(ctx, p)))]
+
+    def gfp_shape(c):
+        if at_call_site(c):
+            token_after_success(c.ex, c.st, c)
+        if isinstance(c.result, VExt):
+            return z3.And(J_ISDICT(c.result.t), f_has_id(c.result.t))     # GRAPH-SHAPE: a drive item has a non-empty string id
+        return z3.BoolVal(True)
+
+    out.append(FnContract(
+        target=f"{CLIENT}::SharePointRestClient._get_folder_by_path",
+        params=[("self", CL), ("site_id", p_str()), ("folder_path", p_str()), ("drive_id", P_DRIVE)],
+        returns=gfp_returns, ensures=[("graph-shape", gfp_shape)], raises=listing_raises(),
+        modifies=("self",), frame=token_frame, assumed=True,
+        note="ASSUMED abstraction of the folder lookup: FP_FOUND / FP_ITEM (404 -> None; other failures: client family)",
+    ))
+
+    # -- _walk_and_filter ---------------------------------------------------------------------------------------------
+    def waf_term(args):
+        ctx = ctx_of(args["site_id"], args["drive_id"])
+        fp = args["folder_path"]
+        return WAF(ctx, args["file_filter"].t, sv("") if isinstance(fp, VNoneT) else fp.t)
+
+    def waf_hyps(c):
+        if at_call_site(c):
+            return z3.BoolVal(True)
+        ctx = ctx_of(c.args["site_id"], c.args["drive_id"])
+        fp = c.args["folder_path"]
+        path = sv("") if isinstance(fp, VNoneT) else fp.t
+        flt = c.args["file_filter"].t
+        w = z3.Const(fresh_name("w!df"), SQF)
+        return z3.And(def_waf(ctx, flt, path),
+                      z3.ForAll([w], def_filtered(flt, w), patterns=[filtered(flt, w)]))
+
+    def waf_inv(lc):
+        w = lc.seq.tag[1] if isinstance(lc.seq, VSeq) and isinstance(lc.seq.tag, tuple) else None
+        if w is None:
+            return z3.BoolVal(False)
+        flt = lc.entry.lookup("file_filter").t
+        return ghost_y(lc.st) == FILTER(flt, w, lc.i)
+
+    out.append(FnContract(
+        target=f"{CLIENT}::SharePointRestClient._walk_and_filter",
+        params=[("self", CL), ("site_id", p_str()), ("file_filter", p_filter_abs()), ("folder_path", with_default(p_opt(p_str()), NONE)),
+                ("drive_id", P_DRIVE)],
+        hyps=waf_hyps,
+        generator=True,
+        ensures=[("yields-exactly-the-matching-files-of-the-walk-in-order", lambda c: y_is(c, waf_term(c.args))),
+                 ("responses-closed", closed)],
+        raises=listing_raises(),
+        loops={0: LoopSpec(inv=waf_inv, label="walk")},
+        modifies=("self",), frame=token_frame,
+        result_maker=gen_result(lambda ctx: waf_term(ctx.args)),
+    ))
+
+    # -- list_files_filtered ------------------------------------------------------------------------------------------
+    def site_of(c):
+        sid = self_field(c, "_site_id")
+        return sid if isinstance(sid, VStr) else None
+
+    def lff_term(c, n=None):
+        sid = site_of(c)
+        if sid is None:
+            return None
+        ctx = ctx_of(sid, c.args["drive_id"])
+        flt = c.args["file_filter"].t
+        return z3.If(TARGET_N(flt) > 0, LFF(ctx, flt, TARGET_N(flt)), WAF(ctx, flt, sv("")))
+
+    def lff_post(c):
+        t = lff_term(c)
+        return z3.BoolVal(False) if t is None else y_is(c, t)
+
+    def lff_inv(lc):
+        sid = lc.st.obj(lc.entry.lookup("self").ref).data["_site_id"]
+        if not isinstance(sid, VStr):
+            return z3.BoolVal(False)
+        ctx = ctx_of(sid, lc.entry.lookup("drive_id"))
+        flt = lc.entry.lookup("file_filter").t
+        return ghost_y(lc.st) == LFF(ctx, flt, lc.i)
+
+    out.append(FnContract(
+        target=f"{CLIENT}::SharePointRestClient.list_files_filtered",
+        params=[("self", CL), ("file_filter", p_filter_abs()), ("drive_id", P_DRIVE)],
+        generator=True,
+        ensures=[("yields-exactly-the-matching-files:-per-target-folder-in-order,-or-of-the-whole-drive", body_only(lff_post)),
+                 ("responses-closed", closed)],
+        raises=[Raises(k, when=lambda c: z3.BoolVal(True) if at_call_site(c) else closed(c)) for k in FAMILY],
+        loops={0: LoopSpec(inv=lff_inv, label="targets")},
+        modifies=("self",),
+    ))
+
+    # -- list_all_files -------------------------------------------------------------------------------------------------
+    def laf_walk(c_or_lc_self_data):
+        sid = c_or_lc_self_data["_site_id"]
+        if not isinstance(sid, VStr):
+            return None
+        ctx = CTX0(sid.t)
+        return WALK(ctx, CUROOT(ctx), sv(""))
+
+    def laf_post(c):
+        w = laf_walk(c.st.obj(c.args["self"].ref).data)
+        if w is None or not isinstance(c.result, VRef):
+            return z3.BoolVal(False)
+        fs = seq_of(c.st, c.result, FMS)
+        return z3.BoolVal(False) if fs is None else fs == w
+
+    def laf_inv(lc):
+        w = lc.seq.tag[1] if isinstance(lc.seq, VSeq) and isinstance(lc.seq.tag, tuple) else None
+        fs = seq_of(lc.st, lc["files"], FMS)
+        if w is None or fs is None:
+            return z3.BoolVal(False)
+        return fs == TAKE(w, lc.i)
+
+    out.append(FnContract(
+        target=f"{CLIENT}::SharePointRestClient.list_all_files",
+        params=[("self", CL), ("include_root_files", with_default(p_bool(), VBool(True)))],
+        hyps=lambda c: take_all(),
+        ensures=[("returns-exactly-the-walk-of-the-default-library:-every-file-once,-in-order,-with-its-parent-path", body_only(laf_post)),
+                 ("responses-closed", closed)],
+        raises=[Raises(k, when=lambda c: z3.BoolVal(True) if at_call_site(c) else closed(c)) for k in FAMILY],
+        loops={0: CLoop(inv=laf_inv, label="collect", seq_lists={"files": FMS})},
+        modifies=("self",),
+    ))
+    return out
+
+
+def lemmas():
+    w = z3.Const("w!lem", SQF)
+    n = z3.Int("n!lem")
+    wj = z3.Const("wj!lem", SQJ)
+    e = z3.Const("e!lem", JsonS)
+    memb = z3.ForAll([e], z3.Implies(z3.Contains(wj, z3.Unit(e)), is_folder(e)))
+    inr = [n >= 0, n < z3.Length(wj)]
+    return [
+        # take-snoc: w[:n+1] == w[:n] ++ [w[n]]; z3 needs 10 s for it in one query, each step below is immediate
+        ("C18/client.py::spec/lemma#take-snoc.1-unit-nth", [n >= 0, n < z3.Length(w)], z3.Unit(w[n]) == z3.SubSeq(w, n, 1)),
+        ("C18/client.py::spec/lemma#take-snoc.2-split", [n >= 0, n < z3.Length(w)],
+         z3.SubSeq(w, 0, n + 1) == z3.Concat(z3.SubSeq(w, 0, n), z3.SubSeq(w, n, 1))),
+        ("C18/client.py::spec/lemma#take-snoc.3-compose",
+         [z3.Unit(w[n]) == z3.SubSeq(w, n, 1), z3.SubSeq(w, 0, n + 1) == z3.Concat(z3.SubSeq(w, 0, n), z3.SubSeq(w, n, 1))],
+         z3.SubSeq(w, 0, n + 1) == z3.Concat(z3.SubSeq(w, 0, n), z3.Unit(w[n]))),
+        # take-all: take(w, n) == w[:n] by induction on n (base, step using the take-snoc instance), then w[:|w|] == w
+        ("C18/client.py::spec/lemma#take-all.base", [], TAKE(w, z3.IntVal(0)) == z3.SubSeq(w, 0, 0)),
+        ("C18/client.py::spec/lemma#take-all.step",
+         [n >= 0, n < z3.Length(w), TAKE(w, n) == z3.SubSeq(w, 0, n),
+          z3.SubSeq(w, 0, n + 1) == z3.Concat(z3.SubSeq(w, 0, n), z3.Unit(w[n]))],
+         TAKE(w, n + 1) == z3.SubSeq(w, 0, n + 1)),
+        ("C18/client.py::spec/lemma#take-all.full", [TAKE(w, z3.Length(w)) == z3.SubSeq(w, 0, z3.Length(w))], TAKE(w, z3.Length(w)) == w),
+        # members-by-index: (forall e in t. folder(e)) ==> forall n in range. folder(t[n]); three steps, composed by
+        # transitivity (z3 does not find the chain in one query: measured unknown at 10 s)
+        ("C18/client.py::spec/lemma#members-by-index.1-unit-nth", inr, z3.Unit(wj[n]) == z3.SubSeq(wj, n, 1)),
+        ("C18/client.py::spec/lemma#members-by-index.2-nth-is-member", inr + [z3.Unit(wj[n]) == z3.SubSeq(wj, n, 1)],
+         z3.Contains(wj, z3.Unit(wj[n]))),
+        ("C18/client.py::spec/lemma#members-by-index.3-member-is-folder", [memb, z3.Contains(wj, z3.Unit(wj[n]))], is_folder(wj[n])),
+    ]
+
+
 def contracts(reg):
     install_string_models(reg)
     install_transport_models(reg)
-    return part_a(reg) + part_b(reg)
+    install_listing_models(reg)
+    return part_a(reg) + part_b(reg) + part_c(reg)
 
 
 TRUSTED = []
